@@ -434,6 +434,8 @@ class Sparsify(EnvironmentFilter):
         actions_has_headers = 'actions' in first and hasattr(first['actions'][0],'headers')
         action_has_headers  = 'action'  in first and hasattr(first['action' ]   ,'headers')
 
+        targets = [t for t in ['rewards','feedbacks'] if callable(first.get(t))]
+
         for interaction in interactions:
 
             new = interaction.copy()
@@ -443,6 +445,10 @@ class Sparsify(EnvironmentFilter):
 
             if self._action and 'actions' in new:
                 new['actions'] = list(map(self._make_sparse,new['actions'],repeat(actions_has_headers),repeat('action')))
+
+                if targets and new['actions'] != interaction['actions']:
+                    for target in targets:
+                        new[target] = DiscreteReward(new['actions'],list(map(interaction[target],interaction['actions'])))
 
             if self._action and 'action' in new:
                 new['action'] = self._make_sparse(new['action'],action_has_headers,'action')
